@@ -377,6 +377,10 @@ func (x *topo) processOne(i int, release bool) {
 	x.reorderedFuncs = append(x.reorderedFuncs, fm)
 	if !release {
 		debugln("\texclude", fm)
+		// It has its place in the list even though what it needs is missing: the
+		// providers that only wait for their turn behind it must not be held back.
+		// What it would have provided is not released.
+		x.releaseNode(i)
 		return
 	}
 
